@@ -1,0 +1,52 @@
+//go:build verif
+
+package orda
+
+import (
+	mqtt "github.com/eclipse/paho.mqtt.golang"
+	"github.com/orda-io/orda/client/pkg/errors"
+	"github.com/orda-io/orda/client/pkg/model"
+)
+
+// VerifClient is the extra surface of a client built by NewClientForVerif.
+// Verification hook: compiled only with -tags verif.
+type VerifClient interface {
+	Client
+	VerifConnect() error
+	VerifClose()
+	VerifCUID() string
+}
+
+// NewClientForVerif builds a normal client whose transport is the given service stub / MQTT client.
+func NewClientForVerif(conf *ClientConfig, alias string, svc model.OrdaServiceClient, mq mqtt.Client) VerifClient {
+	c := NewClient(conf, alias).(*clientImpl)
+	if c.syncManager != nil {
+		c.syncManager.VerifSetClients(svc, mq)
+	}
+	return c
+}
+
+// VerifConnect is Connect without dialing.
+func (its *clientImpl) VerifConnect() (err error) {
+	defer func() {
+		if err == nil {
+			its.state = connected
+		}
+	}()
+	if e := its.syncManager.VerifConnect(); e != nil {
+		return errors.ClientConnect.New(its.ctx.L(), e.Error())
+	}
+	if e := its.syncManager.ExchangeClientRequestResponse(); e != nil {
+		return e
+	}
+	return nil
+}
+
+// VerifClose is Close without a gRPC connection.
+func (its *clientImpl) VerifClose() {
+	its.state = notConnected
+	its.syncManager.VerifClose()
+}
+
+// VerifCUID returns the client's id.
+func (its *clientImpl) VerifCUID() string { return its.ctx.Client.CUID }
